@@ -134,7 +134,7 @@ def run(ctx, report):
     )
     regs = [r for r in facts.registrations() if r.prefix == "DE"]
     by_name = {}
-    r_disp = report.rule("R07-dispatch", floor=39, what="method names unique, equal to the registry key read from bank entries; no DE:default")
+    r_disp = report.rule("R07-dispatch", floor=78, what="method names unique; a bank entry naming method m is judged by the class registered as DE:m, unlisted / unimplemented ones are accepted (by evaluation); no DE:default")
     for r in regs:
         r_disp.instance({"key": r.key, "class": r.cls.qualname})
         if r.name in by_name:
@@ -147,7 +147,7 @@ def run(ctx, report):
     if "default" in by_name:
         r_disp.finding("DE:default", "a DE:default algorithm would be applied to every German bank without a method", by_name["default"].where)
     # reader side: field name and key format in bban.validate_national_checksum
-    _check_reader(ctx, report, r_disp)
+    _check_reader(ctx, report, r_disp, by_name)
     # data side: every method named by the German bank entries
     used = {}
     for e in reg.banks:
@@ -239,29 +239,67 @@ def run(ctx, report):
     report.trusted.append("sv/tables/bundesbank.py (reference parameters)")
 
 
-def _check_reader(ctx, report, rule):
+def _check_reader(ctx, report, rule, by_name):
+    """Bank entry -> method, decided by evaluation: BBAN.validate_national_checksum is evaluated on a German BBAN whose bank entry
+    is (a) a registry entry naming method m, for every registered m, (b) an entry naming a method that is not implemented, (c) no
+    entry at all.  (a) must hand the account number to the class registered as DE:m and to no other, (b) and (c) must accept
+    without consulting any algorithm."""
+    from ..values import Bound, Obj
     prog = ctx.program
-    f = prog.get("schwifty.bban.BBAN.validate_national_checksum")
-    # field name read from the bank entry and the default method name
-    fields = []
-    for n in ast.walk(f.node):
-        if isinstance(n, ast.Call) and isinstance(n.func, ast.Attribute) and n.func.attr == "get" and n.args and \
-                isinstance(n.args[0], ast.Constant) and isinstance(n.args[0].value, str) and len(n.args) == 2:
-            fields.append((n.args[0].value, n.args[1].value if isinstance(n.args[1], ast.Constant) else None, n))
-    rule.instance({"reader": f.short, "field reads": [(a, b) for a, b, _ in fields]})
-    names = [a for a, _, _ in fields]
-    de_fields = set()
+    facts = ctx.facts
+    bban_cls = prog.get("schwifty.bban.BBAN")
+    f = bban_cls.methods.get("validate_national_checksum")
+    bank = bban_cls.methods.get("bank")
+    if f is None or bank is None:
+        raise AnalysisError("anchor vanished: BBAN.validate_national_checksum / BBAN.bank")
+    reps = {}
     for e in ctx.registry.banks:
-        if e.get("country_code") == "DE":
-            de_fields.update(e.keys())
-    if not fields:
-        raise AnalysisError("validate_national_checksum: no `bank.get(<field>, <default>)` read found (idiom not recognised)")
-    fld, default, node = fields[0]
-    if fld not in de_fields:
-        rule.finding("reader.field", f"validate_national_checksum reads bank field {fld!r}, which no German bank entry carries "
-                     f"(entries carry {sorted(de_fields)}); every German bank would fall back to {default!r}", f"{f.module.relpath}:{node.lineno}")
-    if default != "default":
-        rule.finding("reader.default", f"fallback method name is {default!r}, national algorithms register as 'default'", f"{f.module.relpath}:{node.lineno}")
+        if e.get("country_code") == "DE" and e.get("checksum_algo") is not None:
+            reps.setdefault(e["checksum_algo"], e)
+    if not reps:
+        raise AnalysisError("no German bank entry carries a method")
+    template = dict(next(iter(reps.values())))
+    cases = [(m, reps.get(m) or dict(template, checksum_algo=m)) for m in sorted(by_name)]
+    unimpl = sorted(set(reps) - set(by_name))
+    cases += [(None, reps[m]) for m in unimpl[:3]] + [(None, dict(template, checksum_algo="ZZ")), (None, None)]
+    for m, entry in cases:
+        it = facts.interp()
+        it.no_split = 1
+        it.intrinsics[bank.qualname] = lambda it_, a, k, n, entry=entry: (dict(entry) if entry is not None else None)
+
+        def thunk():
+            obj = Obj(bban_cls, strval="370400440532013000")
+            obj.attrs["country_code"] = "DE"
+            return it.call(it.getattr(obj, "validate_national_checksum"), [], {})
+
+        try:
+            outs = it.explore(thunk, max_paths=4000)
+        except (CannotEvaluate, PathLimit) as e:
+            raise AnalysisError(f"cannot evaluate BBAN.validate_national_checksum with a bank entry naming method {m!r}: {e}")
+        reached = set()
+        results = set()
+        for o in outs:
+            if o.kind == "infeasible":
+                continue
+            results.add("True" if (o.kind == "return" and o.value is True) else (o.value.name if o.kind == "raise" else repr(o.value)))
+            for e in o.events:
+                c = e.get("callee") if e["kind"] == "call" else None
+                if isinstance(c, Bound) and c.func.name == "validate" and isinstance(c.recv, Obj) and e.get("func") == f.short:
+                    reached.add(c.recv.cls.qualname)
+        label = m if m is not None else (entry.get("checksum_algo") if entry else "<no entry>")
+        rule.instance({"bank entry method": label, "consults": sorted(reached), "outcomes": sorted(results)} if (m is None or len(rule.samples) < 4) else None)
+        if m is not None:
+            want = by_name[m].cls.qualname
+            if reached != {want}:
+                rule.finding(f"reader:{m}", f"a German bank entry naming method {m!r} makes validate_national_checksum consult {sorted(reached) or 'no algorithm'}; "
+                             f"the method is implemented by {want}", f.where)
+        else:
+            if reached:
+                rule.finding(f"reader:unlisted:{label}", f"a German BBAN whose bank is {'not listed' if entry is None else 'listed with the unimplemented method ' + repr(label)} "
+                             f"is judged by {sorted(reached)}; it must be accepted", f.where)
+            elif results != {"True"}:
+                rule.finding(f"reader:unlisted:{label}", f"a German BBAN whose bank is {'not listed' if entry is None else 'listed with the unimplemented method ' + repr(label)} "
+                             f"gives {sorted(results)}; it must be accepted (True)", f.where)
 
 
 def _check_method(ctx, report, r_tab, r_dig, m, cls, ref, where):
@@ -511,15 +549,40 @@ def _check_alt(ctx, rule, m, cls, ref, where):
 
 
 def _check_91(ctx, report, rule, r91):
-    """Method 91 accepts iff one of the four variants accepts (structure of validate)."""
-    f = r91.cls.lookup(ctx.program, "validate")
-    if f is None or f[1] != "method":
-        raise AnalysisError("Algorithm91.validate not found")
-    names = set()
-    for n in ast.walk(f[2].node):
-        if isinstance(n, ast.Attribute) and n.attr in BB.VARIANTS_91:
-            names.add(n.attr)
-    rule.instance({"method": "91", "variants consulted": sorted(names)})
-    missing = sorted(set(BB.VARIANTS_91) - names)
-    if missing:
-        rule.finding("DE:91.variants", f"method 91: validate does not consult variant(s) {missing}", r91.where)
+    """Method 91 accepts iff one of the four variants accepts - decided by evaluation: for every variant, accounts that only this
+    variant accepts (by the reference) must be accepted, and accounts no variant accepts must be rejected."""
+    import random
+    from ..algo_eval import Evaluator
+    from ..tables import bundesbank_ref as REF
+    ev = Evaluator(ctx.facts)
+    rnd = random.Random(9100 + ctx.seed)
+    only = {k: [] for k in BB.VARIANTS_91}
+    none = []
+    want_each = 12 if ctx.tier == "thorough" else 4
+    for _ in range(20000):
+        if all(len(v) >= want_each for v in only.values()) and len(none) >= want_each:
+            break
+        a = "".join(rnd.choice("0123456789") for _ in range(10))
+        acc = [k for k, ref in BB.VARIANTS_91.items() if REF._template(a, ref)[2]]
+        if len(acc) == 1 and len(only[acc[0]]) < want_each:
+            only[acc[0]].append(a)
+        elif not acc and len(none) < want_each:
+            none.append(a)
+    if any(not v for v in only.values()) or not none:
+        raise AnalysisError("method 91: could not construct accounts separating the four variants")
+    for k, accounts in only.items():
+        bad = None
+        for a in accounts:
+            got = ev.call(r91.cls, "validate", [[a], ""])
+            if got != ("ret", True) and bad is None:
+                bad = (a, got)
+        rule.instance({"method": "91", "variant": k, "accounts only this variant accepts": accounts[:3], "accepted": bad is None})
+        if bad:
+            rule.finding("DE:91.variants", f"method 91: account {bad[0]} is valid by {k} (and by no other variant) but is "
+                         f"{'rejected' if bad[1] == ('ret', False) else 'answered with ' + repr(bad[1])[:60]}: validate does not consult {k}", r91.where, witness=bad[0])
+    for a in none:
+        got = ev.call(r91.cls, "validate", [[a], ""])
+        if got != ("ret", False):
+            rule.finding("DE:91.none", f"method 91: account {a} is valid by none of the four variants but validate gives {got!r}", r91.where, witness=a)
+            break
+    rule.instance({"method": "91", "accounts no variant accepts": none[:3]})
